@@ -60,6 +60,10 @@ def spaces():
 
         def ddenote(action, clist=clist, allocs=allocs):
             return {c.symbol: float(v) for c, v in zip(clist, allocs[int(action)]) if not isinstance(c, Cash) and v != 0}
+        if cname == "nocash":
+            # whole-lot execution of WEIGHT allocations: the allocation executed is still the indexed weight vector
+            out["discwl-nocash"] = (lambda clist=clist, allocs=allocs: DiscretePortfolio(clist, allocs, fractional=False), [1, 2, 3, 0, np.int64(2)],
+                                    [-1, 4, 1.5, None, np.array([1.7])], ddenote, "weight", False)
         out["disc-%s" % cname] = (lambda clist=clist, allocs=allocs: DiscretePortfolio(clist, allocs), [1, 2, 3, 0, np.int64(2), np.array(3)],
                                   [-1, 4, 1.5, 10 ** 9, None, "a", np.array([0, 1]), np.nan, np.array([1.7]), np.array(1.5), np.array([-0.5]),
                                    np.float64(2.5), np.array([[0.25]]), np.array([np.nan])], ddenote, "weight", True)
@@ -163,7 +167,11 @@ def run_case(sname, delay, bad_idx, pos, filler):
                 w = exp.get(c.symbol, 0.0)
                 q = hq.get(c, 0.0)
                 bid, ask = books[c.symbol]
-                if measure == "weight":
+                if measure == "weight" and not fractional:
+                    px = ask if w > 0 else bid
+                    if q != int(q) or abs(q - w * nlv_pre / px) >= 1.0 + 1e-9:
+                        msgs.append("step %d: whole-lot position %r in %s, weight %r x NLV %r / price %r = %r lots" % (k, q, c.symbol, w, nlv_pre, px, w * nlv_pre / px))
+                elif measure == "weight":
                     px = ask if w > 0 else bid
                     if not close(q * px, w * nlv_pre, 1e-9):
                         msgs.append("step %d: position %r in %s x price %r != weight %r x NLV %r" % (k, q, c.symbol, px, w, nlv_pre))
